@@ -95,6 +95,8 @@ def judge_stat(case, rec):
     orc = Oracle(sv, q)
     rec.event("shape=" + "x".join(case["shape"]))
     rspecs, cspecs = _specs(part, orc, case)
+    inexact = bool(q.get("weighted")) and bool(sv["weights"]) and any(
+        float(w * 8) != int(w * 8) for w in sv["weights"])
     squared = bool(q.get("squared")) and orc.W is not None and \
         any(w != 1 for w in sv["weights"])
     # --- the library uses squared weights only when the response carries them AND the
@@ -136,6 +138,11 @@ def judge_stat(case, rec):
                 v = pa * (1 - pa) / na + pb * (1 - pb) / nb
                 if orc.is_diff(rs):
                     v = abs(v)
+                if inexact and abs(v) < 1e-12:
+                    # weights that are not exactly representable: whether a variance of
+                    # "zero" comes out as 0, 4e-17 or -4e-17 is rounding, the statistic is
+                    # 0/0 or x/0 either way
+                    continue
                 if v <= 0:
                     want_t = None if (pb - pa) == 0 else math.copysign(math.inf, pb - pa)
                 else:
